@@ -52,7 +52,11 @@ def run_case(case):
     jobs_per_shard = []
     specs = {}
     for si in range(SPECS_PER_CASE[tier]):
-        spec = gen.rand_spec(rnd, "quick", jobless_ok=True, max_len=50)
+        if si == 4:
+            from .c17 import builder_spec
+            spec = builder_spec(rnd)            # one model with every builder class per batch
+        else:
+            spec = gen.rand_spec(rnd, "quick", jobless_ok=True, max_len=50)
         servers_ = [n for n, o in spec["objects"].items() if o["cls"] == "Server"]
         if servers_:
             # jobs declared on a server but used by no step (they never run): part of the model, although unreachable from the system
